@@ -197,6 +197,9 @@ impl AsRef<Sm2PublicKey> for Sm2PrivateKey {
 
 impl Sm2PrivateKey {
     pub fn new(sk: &[u8]) -> Sm2Result<Self> {
+        if sk.len() != 32 {
+            return Err(Sm2Error::InvalidPrivate);
+        }
         let d = u256_from_be_bytes(sk);
         let public_key = public_from_private(&d)?;
         let private_key = Self { d, public_key };
